@@ -4,10 +4,10 @@ import RsslVerif.Model.MslDup
 Line-protocol front end of the models of the two operand-repeating arms (`Model.MslDup`).
 
 `C02.dup <source> <entry> ;; <entry> …` with `<entry> = cast <type shape> @ <operand type id> @ <operand>` or
-`rem <target>` (forms of `harness/src/c02/dupcast.rs`): every cast of the module to a struct type from a value of another
-type, every `%=` on a floating-point target.  The answer is what the Metal exporter does with the module as far as these
+`rem <target> @ <right operand>` (forms of `harness/src/c02/dupcast.rs`): every cast of the module to a struct type from a
+value of another type, every `%=` on a floating-point target.  The answer is what the Metal exporter does with the module as far as these
 decide: `diagnostic GenerateError(UnsupportedCast)` if `structCastNow` refuses a cast,
-`diagnostic GenerateError(ComplexRemainderAssignment)` if `remAssignNow` refuses a target (both kinds in one module: the
+`diagnostic GenerateError(ComplexRemainderAssignment)` if `remAssignNow` refuses a target or a right operand (both kinds in one module: the
 exporter reports the one it meets first, which the entries do not determine — `unsupported`), else
 `casts c1 c2 … ; rem k`: per emitted braced list the number of clauses and the equality classes of its clauses (the operand
 itself / the operand converted to element type K), sorted, and the number of targets written twice.  Everything else goes to
@@ -81,8 +81,14 @@ def parseEntry? (it : String) : Option Entry :=
       | _, _, _ => none
     | _ => none
   else if it.startsWith "rem " then
-    match parseAll ((it.drop 4).toString) with
-    | [ex] => (parseD? ex).map (fun d => .rem (remAssignNow d))
+    match ((it.drop 4).toString).splitOn " @ " with
+    | [a, b] =>
+      match parseAll a, parseAll b with
+      | [ax], [bx] =>
+        match parseD? ax, parseD? bx with
+        | some da, some db => some (.rem (remAssignNow da db))
+        | _, _ => none
+      | _, _ => none
     | _ => none
   else none
 
